@@ -83,7 +83,8 @@ CLAUSES = (
 START_TODS = ((0, 0), (9, 15), (14, 30), (15, 45), (21, 1), (9, 30, 45))
 BAH_TODS = ((0, 0), (9, 15), (14, 30), (21, 0), (23, 59))
 WEEKDAYS = ("MON", "TUE", "WED", "THU", "FRI")
-UNKNOWN_WEEKDAYS = ("SAT", "SUN", "sat", "Sun", "", "MONDAY", "friday", "XYZ", "M", "MO", "TUES", "WEEKDAY", "1")
+UNKNOWN_WEEKDAYS = ("SAT", "SUN", "sat", "Sun", "", "MONDAY", "friday", "XYZ", "M", "MO", "TUES", "WEEKDAY", "1",
+                    "WED ", " wed", "FRI\n", " TUE ")
 LONG_LENGTHS = (366, 800)
 MID_LENGTHS = (31, 33, 70)
 MAX_FAILURES = 25
@@ -102,7 +103,7 @@ BOUND = (
     "and with the timestamps of the real clock run on the same range.  (The rotation exists because the library "
     "spends ~0.15 ms per generated stamp; the crossed product would take > 10 min on 16 cores.)  For each start "
     "date also: BuyAndHoldRebalance at start times {00:00, 09:15, 14:30, 21:00, 23:59}; WeeklyRebalance on "
-    "(d 00:00, d+7 23:59) with each of 13 unknown weekday strings (SAT, SUN, sat, Sun, '', MONDAY, friday, XYZ, M, "
+    "(d 00:00, d+7 23:59) with each of 17 unknown weekday strings ('WED ', ' wed', 'FRI\\n', ' TUE ' - padded names are not names -, SAT, SUN, sat, Sun, '', MONDAY, friday, XYZ, M, "
     "MO, TUES, WEEKDAY, 1).  thorough = that whole product (about 4.2 million constructions), exhaustive w.r.t. "
     "it.  quick = a fixed boundary set of start dates (one full week, +-2 days around every leap day, every year "
     "end, twelve month ends falling on a weekend, the window ends) with the start time rotating, lengths "
